@@ -42,9 +42,11 @@ MANIFEST = dict(
          "(C17_table_closed, soundness of the checker proved: closedb_sound), and the graph is acyclic "
          "(C17_table_acyclic); general theorem C17_defs_available: on a closed table every statement inlined by any "
          "successful import finds everything it needs in the session (output + earlier imports), in any order; "
-         "C17_stdlib_defs_available instantiates it to the real graph. NOT proved: that the providers come BEFORE "
-         "their users in the inlined order (needs acyclicity + a stack invariant of the depth-first pass), and that a "
-         "definition means the same in both orders (type checking and evaluation are outside the model) — checked on "
+         "C17_stdlib_defs_available instantiates it to the real graph; and C17_scoped_in_order: on a closed AND "
+         "acyclic table every inlined statement is well-scoped in what comes BEFORE it (earlier output + earlier "
+         "imports), for every order (stack invariant of the depth-first pass; acyclicity checker proved sound), with "
+         "the instance C17_stdlib_scoped_in_order. NOT proved: that the translator's free-identifier extraction is "
+         "what numbat's name resolution and type checker look up, and that a definition means the same in both orders (type checking and evaluation are outside the model) — checked on "
          "the implementation for all single modules, sampled (thorough: all) pairs and random subsets by comparing "
          "names, signatures, unit representations, types, and the raw values of all globals as f64 bit patterns.",
     design_ref="DESIGN.md §6 C17, design/session.md",
@@ -59,7 +61,7 @@ MANIFEST = dict(
 THEOREMS = ["C17_once", "C17_reimport_noop", "C17_closure", "C17_order_free", "C17_env_order_free",
             "C17_imports_succeed", "C17_table_wf", "C17_table_clash_free", "C17_table_keys",
             "C17_table_closed", "C17_table_acyclic", "C17_stdlib_succeeds", "C17_stdlib_order_free",
-            "C17_defs_available", "C17_stdlib_defs_available"]
+            "C17_defs_available", "C17_stdlib_defs_available", "C17_scoped_in_order", "C17_stdlib_scoped_in_order"]
 
 
 # ------------------------------------------------------------ translator
